@@ -971,6 +971,19 @@ def check_cases(ctx, eng, cases, cov, dist, distinct, rng):
         # determinism: the observation must not depend on the enumeration order (dlopen order aside)
         a = (o1["fatal"], o1["listed"], o1["calls"], sorted(o1["opened"]))
         b = (o2["fatal"], o2["listed"], o2["calls"], sorted(o2["opened"]))
+        if tw:
+            # one object under two names: WHICH of its names carries the module is not an observable of pdsh (-L shows
+            # type/name, not files); compare by object
+            ident = {}
+            for f in tw:
+                try:
+                    ident.setdefault(os.stat(eng.given(eng.pool.dir, f))[1:3], []).append(f)
+                except OSError:
+                    pass
+            canon = {f: min(g) for g in ident.values() for f in g}
+            cn = lambda o: (o["fatal"], [(canon.get(f, f), x) for f, x in o["listed"]], [canon.get(f, f) for f in o["calls"]],
+                            sorted(o["opened"]))
+            a, b = cn(o1), cn(o2)
         if a != b:
             dist["order_dependent"] += 1
             sig = order_dep_signature(eng, c)
